@@ -251,10 +251,13 @@ func (c *Client) connect() error {
 	// Client is ok, we now open XMPP session with TLS negotiation if possible and session resume or binding
 	// depending on state.
 	if c.Session, err = NewSession(c, state); err != nil {
-		// Try to get the stream close tag from the server.
+		// Try to get the stream close tag from the server. The decoder is the one of this connection: the next
+		// connection attempt installs a new one in the transport, which this goroutine must not read from (it
+		// would take the features, or bytes of the TLS handshake, away from the new negotiation).
+		decoder := c.transport.GetDecoder()
 		go func() {
 			for {
-				val, err := stanza.NextPacket(c.transport.GetDecoder())
+				val, err := stanza.NextPacket(decoder)
 				if err != nil {
 					// No session was established: the caller gets the negotiation error, there is no
 					// disconnection to report (a Disconnected event would start a second reconnection loop)
